@@ -104,6 +104,16 @@ func (r *recRegistry) gauge(id, tagPart string) (float64, bool) {
 	return s()
 }
 
+// pollAll calls every registered gauge supplier once (what a polling registry does from its own goroutine).
+func (r *recRegistry) pollAll() {
+	r.mu.Lock()
+	gs := append([]recGauge(nil), r.Gauges...)
+	r.mu.Unlock()
+	for _, g := range gs {
+		_, _ = g.Supplier()
+	}
+}
+
 // take returns and clears the recorded samples.
 func (r *recRegistry) take() []recSample {
 	r.mu.Lock()
@@ -180,6 +190,19 @@ func (s *sched) install() {
 	strategy.VerifSetHook(s.Point)
 }
 
+// schedLogger is an injected limit.Logger: every Debugf of the blocking/deadline limiters (one of them
+// sits between the failed attempt and the wait) is a schedule point.
+type schedLogger struct{ s *sched }
+
+func (l schedLogger) Debugf(msg string, params ...interface{}) {
+	n := len(msg)
+	if n > 14 {
+		n = 14
+	}
+	l.s.Point("log:" + msg[:n])
+}
+func (l schedLogger) IsDebugEnabled() bool { return false }
+
 // yieldLimiter is an injected delegate: schedule points after every delegate attempt and after
 // every inner completion (i.e. before the wrapper's broadcast / unblock).
 type yieldLimiter struct {
@@ -221,6 +244,7 @@ type StackCfg struct {
 	DeadlineMs int    `json:"deadline_ms,omitempty"`
 	TimeoutNs  int64  `json:"timeout_ns,omitempty"`  // overrides TimeoutMs when non-zero
 	DeadlineNs int64  `json:"deadline_ns,omitempty"` // overrides DeadlineMs when non-zero
+	WinNs      int64  `json:"win_ns,omitempty"`      // DefaultLimiter window time (min=max); default 1 ms
 	Inject     bool   `json:"inject,omitempty"`      // wrap the delegate with schedule points
 	Defaults   bool   `json:"defaults,omitempty"`    // use the ...WithDefaults constructor (queue kinds)
 }
@@ -238,7 +262,7 @@ type stack struct {
 	binNames []string // partitioned strategies: bins in index order
 }
 
-var stackBinFracs = map[string]float64{"a": 0.5, "b": 0.25}
+var stackBinFracs = map[string]float64{"a": 0.5, "b": 0.25, "c": 0}
 
 func stackKeyCtx(parent context.Context, key string) context.Context {
 	ctx := context.WithValue(parent, matchers.LookupPartitionContextKey, key)
@@ -348,14 +372,20 @@ func buildStack(cfg StackCfg, lim core.Limit, sc *sched, t0 time.Time) (*stack, 
 	if lim == nil {
 		lim = limit.NewFixedLimit("fixed", cfg.Limit, nil)
 	}
-	def, err := limiter.NewDefaultLimiter(lim, 1e6, 1e6, 1, 10, st, nil, s.reg)
+	win := int64(1e6)
+	if cfg.WinNs > 0 {
+		win = cfg.WinNs
+	}
+	def, err := limiter.NewDefaultLimiter(lim, win, win, 1, 10, st, nil, s.reg)
 	if err != nil {
 		return nil, err
 	}
 	s.def = def
 	var delegate core.Limiter = def
+	var logger limit.Logger
 	if cfg.Inject && sc != nil {
 		delegate = &yieldLimiter{def, sc}
+		logger = schedLogger{sc}
 	}
 	timeout := time.Duration(cfg.TimeoutMs) * time.Millisecond
 	if cfg.TimeoutNs != 0 {
@@ -373,9 +403,9 @@ func buildStack(cfg StackCfg, lim core.Limit, sc *sched, t0 time.Time) (*stack, 
 	case "default":
 		s.lim = delegate
 	case "blocking":
-		s.lim = limiter.NewBlockingLimiter(delegate, timeout, nil)
+		s.lim = limiter.NewBlockingLimiter(delegate, timeout, logger)
 	case "deadline":
-		s.lim = limiter.NewDeadlineLimiter(delegate, deadline, nil)
+		s.lim = limiter.NewDeadlineLimiter(delegate, deadline, logger)
 	case "queue":
 		if cfg.Defaults {
 			s.queue = limiter.NewQueueBlockingLimiterWithDefaults(delegate)
@@ -403,7 +433,7 @@ func buildStack(cfg StackCfg, lim core.Limit, sc *sched, t0 time.Time) (*stack, 
 		s.lim = f
 	case "pool":
 		ord := map[string]pool.Ordering{"random": pool.OrderingRandom, "fifo": pool.OrderingFIFO, "lifo": pool.OrderingLIFO}[cfg.Ordering]
-		p, err := pool.NewPool(delegate, ord, cfg.Backlog, timeout, nil, s.reg)
+		p, err := pool.NewPool(delegate, ord, cfg.Backlog, timeout, logger, s.reg)
 		if err != nil {
 			return nil, err
 		}
